@@ -158,7 +158,7 @@ class C12(Sim):
     PROBES = ["zero_vector", "point_box", "empty_box", "empty_intersection", "infinite_box", "raising_call",
               "errmode_nondefault", "errmode_flip", "shared_array_boxes", "pad_aliased_box", "boundary_point", "contained_point",
               "outside_point", "degenerate_triangle", "parallel_lines", "parallel_vectors", "inplace_normalize", "mesh_box",
-              "tiny_scale", "huge_scale", "same_array_twice", "needle_corner", "integer_vector_rotated", "mesh_vertex_moved", "caller_overwrites_array"]
+              "tiny_scale", "huge_scale", "same_array_twice", "needle_corner", "integer_vector_rotated", "mesh_vertex_moved", "caller_overwrites_array", "roots_asked_again"]
     QUICK_RUNS = 8000
     THOROUGH_RUNS = 1000000
     BLOCK = 100
@@ -734,7 +734,7 @@ class C12(Sim):
             c = [self._gen_comp(r) * 10.0 ** e, self._gen_comp(r) * 10.0 ** e]
             if r.chance(0.05):
                 c = [0.0, 0.0]
-            return {"op": op, "z": c, "n": r.randint(1, 8), "normalize": r.chance(0.75)}
+            return {"op": op, "z": c, "n": r.randint(1, 8), "normalize": r.chance(0.75), "twice": r.chance(0.3)}
         if op == "angle_diff":
             big = r.choice([1.0, 1.0, 10.0, 1e3, 1e6])
             return {"op": op, "x": self._angle(r) * big, "y": self._angle(r), "np": r.chance(0.25)}
@@ -1748,6 +1748,13 @@ class C12(Sim):
         z = complex(*ev["z"])
         n = ev["n"]
         out = self._call(ev, self.maths.roots, z, n, ev["normalize"])
+        if ev.get("twice") and out.ok and isinstance(out.value, list) and out.value:
+            # the caller edits the list it was handed (its own data now), then asks again with equal arguments: the second answer is judged
+            self._settle()
+            out.value.pop()
+            out.value.reverse()
+            self.probes["roots_asked_again"] += 1
+            out = self._call(ev, self.maths.roots, z, n, ev["normalize"])
         if ev.get("bad") or z == 0 or not (1 <= n <= 8):
             return self._done(out)  # the unit input does not exist for 0; n = 0 has no root
         ac = "normalize=%s" % bool(ev["normalize"])
@@ -1758,6 +1765,8 @@ class C12(Sim):
         # "n-th roots raised to n give back the unit input"
         target = z / abs(z) if ev["normalize"] else z
         self.laws += 1
+        if len(rs) != n:
+            self._bad_value("roots-power-gives-input", "roots", "maths.roots", ac, "roots(%r, %d) lists %d values" % (z, n, len(rs)))
         for rt in rs:
             if not isinstance(rt, complex) or not (math.isfinite(rt.real) and math.isfinite(rt.imag)) or \
                     abs(rt ** n - target) > REL * n * abs(target):
